@@ -468,7 +468,7 @@ func GenC01(r *Rng, n int, tier string) []PipeIn {
 					s.Stream = hex.EncodeToString(genStream(r, r.Intn(maxLines+1), func() []byte { return genLine(r, 12) }))
 					s.Gz = in.Cfg.Gunzip && r.Bool()
 					// a named pipe among the inputs (rare histo <(cmd) app.log): reports size 0, cannot be rewound
-					s.Fifo = r.Chance(1, 8) && (!in.Cfg.Gunzip || s.Gz)
+					s.Fifo = r.Chance(1, 8) // also plain content under -z: the gzip probe cannot rewind a pipe
 				}
 				in.Sources = append(in.Sources, s)
 			}
